@@ -598,6 +598,11 @@ def audit_class(data, cls_ok):
 # ==================================================================================================
 # (3) Skip.tla
 # ==================================================================================================
+def dsel(key, m):
+    """deterministic 1-in-m selection (Python's hash() is salted per process)"""
+    return int(vlib.sha(repr(key))[:8], 16) % m == 0
+
+
 def part_skip(ctx, bins, models):
     spec = models.get("skip_spec")
     if ctx.quick:
@@ -627,6 +632,8 @@ def part_skip(ctx, bins, models):
             cuts = [nt]
         else:
             cuts = [0] if (key in hang and not ctx.quick) else [0, nt]
+        if key in hang and len(key[1]) > 3 and not dsel(key, 4):
+            continue          # each predicted hang costs its whole CPU limit: all short ones, a quarter of the long ones
         for cut in cuts:
             jobs.append((key, cut))
 
@@ -637,9 +644,9 @@ def part_skip(ctx, bins, models):
         cls = c["class"][cut]
         # spec audit: where the class is certain a reference front end must agree with the grammar-level classification
         audit = None
-        if cls in ("ok", "diag") and (ctx.quick or hash(key) % 4 == 0):
+        if cls in ("ok", "diag") and (ctx.quick or dsel(key, 4)):
             audit = audit_class(text, cls == "ok")
-        obs, sig, err = observe(bins.san, text, timeout=3 if key in hang else 10)
+        obs, sig, err = observe(bins.san, text, timeout=2 if key in hang else 10)
         return key, cut, text, cls, audit, obs, sig, err
 
     res = vlib.pmap(one, jobs, workers=16)
